@@ -1764,6 +1764,59 @@ fn flow_rules_family(out: &mut Out) {
             Err(e) => out.cex(fam, format!("--post {post_flag} with distance {distance} in {mode} mode fails: {e}")),
         }
     }
+    // ---- values at the representation limits and unusual tags (each class is one recorded finding or one repaired defect)
+    {
+        let go = |extra: &[&str]| -> Result<Zerv, String> {
+            let mut argv: Vec<String> = ["flow", "--source", "none", "--output-format", "zerv", "--no-dirty"].iter().map(|s| s.to_string()).collect();
+            argv.extend(extra.iter().map(|s| s.to_string()));
+            run(&argv)
+        };
+        // "nothing changed at a clean tagged commit" / "post = tag's post + distance": also for a post above u32::MAX (post is a u64 in Zerv)
+        out.cases += 1;
+        match go(&["--tag-version", "1.2.3-post.4294967296", "--bumped-branch", "main", "--distance", "0"]) {
+            Ok(z) => if z.vars.post != Some(4294967296) { out.cex(fam, format!("class=value-above-u32-max clean commit at tag 1.2.3-post.4294967296: post is {:?}", z.vars.post)); },
+            Err(e) => out.cex(fam, format!("class=value-above-u32-max clean commit at tag 1.2.3-post.4294967296: flow fails ({e}); `zerv version` accepts the same tag")),
+        }
+        out.cases += 1;
+        match go(&["--tag-version", "1.2.3-post.4294967295", "--bumped-branch", "main", "--distance", "2"]) {
+            Ok(z) => if z.vars.post != Some(4294967297) { out.cex(fam, format!("class=value-above-u32-max tag post 4294967295 + distance 2: post is {:?}, the statement gives 4294967297", z.vars.post)); },
+            Err(e) => out.cex(fam, format!("class=value-above-u32-max tag post 4294967295 + distance 2: flow fails ({e})")),
+        }
+        // "patch+1 iff the tag has no pre-release": also for tags with fewer than three release numbers and without any tag
+        for (args, want) in [(vec!["--tag-version", "1", "--bumped-branch", "main", "--distance", "1"], (Some(1u64), 0u64, 1u64)),
+                             (vec!["--tag-version", "1.2", "--bumped-branch", "main", "--distance", "1"], (Some(1), 2, 1)),
+                             (vec!["--bumped-branch", "main", "--distance", "1"], (None, 0, 1))] {
+            out.cases += 1;
+            let mut a = args.clone();
+            a.extend(["--output-format", "semver"]);
+            let mut argv: Vec<String> = ["flow", "--source", "none", "--no-dirty"].iter().map(|s| s.to_string()).collect();
+            argv.extend(a.iter().map(|s| s.to_string()));
+            let rendered = FlowArgs::try_parse_from(argv.iter()).map_err(|e| e.to_string()).and_then(|fa| run_flow_pipeline(fa, None).map_err(|e| e.to_string()));
+            let expect_core = format!("{}.{}.{}-", want.0.unwrap_or(0), want.1, want.2);
+            match rendered {
+                Ok(text) => if !text.starts_with(&expect_core) { out.cex(fam, format!("class=fewer-than-three-release-numbers flow {:?} renders {text:?}; patch+1 gives a version starting with {expect_core:?}", args)); },
+                Err(e) => out.cex(fam, format!("class=fewer-than-three-release-numbers flow {:?} fails: {e}", args)),
+            }
+        }
+        // "else the first all-digit path segment after the prefix": also when that segment does not fit the 32-bit number field
+        out.cases += 1;
+        match go(&["--tag-version", "1.2.3", "--bumped-branch", "release/4294967296/5", "--distance", "1"]) {
+            Ok(z) => { let n = z.vars.pre_release.as_ref().and_then(|p| p.number); if n != Some(4294967296) { out.cex(fam, format!("class=branch-number-above-u32-max branch release/4294967296/5: pre-release number {n:?}; the first all-digit segment is 4294967296 (and the next one 5)")); } },
+            Err(e) => out.cex(fam, format!("class=branch-number-above-u32-max branch release/4294967296/5: flow fails ({e})")),
+        }
+        // the rules of the statement do not depend on the schema's precedence list
+        let schema = "(core:[var(Major),var(Minor),var(Patch)], extra_core:[var(Epoch),var(PreRelease),var(Post),var(Dev)], build:[var(BumpedBranch),var(Distance)], precedence_order: ORDER)";
+        for order in ["[]", "[Major,Minor,Patch]", "[PreReleaseLabel,PreReleaseNum,Post,Dev,Major,Minor,Patch]"] {
+            out.cases += 1;
+            let ron = schema.replace("ORDER", order);
+            match go(&["--tag-version", "1.2.3", "--bumped-branch", "main", "--distance", "2", "--schema-ron", &ron]) {
+                Ok(z) => if z.vars.patch != Some(4) || z.vars.major != Some(1) || z.vars.post != Some(2) || z.vars.pre_release.is_none() {
+                    out.cex(fam, format!("class=custom-precedence-order schema with precedence_order {order}: flow gives {:?}.{:?}.{:?} pre {:?} post {:?}; the statement gives 1.2.4 alpha post 2",
+                        z.vars.major, z.vars.minor, z.vars.patch, z.vars.pre_release.as_ref().map(|p| (p.label, p.number)), z.vars.post)); },
+                Err(e) => out.cex(fam, format!("class=custom-precedence-order schema with precedence_order {order}: flow fails ({e})")),
+            }
+        }
+    }
     for (tag, maj, min, pat, tag_pre, tag_post) in tags {
         for branch in branches {
             for distance in [0u64, 3] {
